@@ -168,6 +168,23 @@ def corpus_source(cat):
                 lines.append("        { let r: %s = %s %s %s; println!(\"%s op%d.%d {} {}\", bits(r.amount()), r); }" % (
                     path(r), val(x, j), o, val(y, j + 1), f, k, j))
         lines.append("    }")
+    # table-driven conversions (temperature)
+    lines.append("    #[cfg(feature = \"temperature\")]")
+    lines.append("    {")
+    lines.append("        use quantities::Converter;")
+    lines.append("        use quantities::temperature::*;")
+    lines.append("        let units = [KELVIN, DEGREE_CELSIUS, DEGREE_FAHRENHEIT];")
+    lines.append("        let mut k = 0;")
+    lines.append("        let mut x: AmountT = Amnt!(-38.4);")
+    lines.append("        for _ in 0..40 {")
+    lines.append("            x = x + Amnt!(3.7);")
+    lines.append("            for from in units { for to in units {")
+    lines.append("                let t: Temperature = x * from;")
+    lines.append("                let r = TEMPERATURE_CONVERTER.convert(&t, to).unwrap();")
+    lines.append("                println!(\"temperature conv{} {} {:?}\", k, bits(r.amount()), r.unit()); k += 1;")
+    lines.append("            } }")
+    lines.append("        }")
+    lines.append("    }")
     lines.append("}")
     return "\n".join(lines) + "\n"
 
@@ -284,7 +301,7 @@ def run(tier):
     corpus_runs = 0
     corpus_lines = 0
     cols = [COLUMNS[0], (True, True, False)] if tier == "quick" else COLUMNS
-    check_rows = [["speed"], ["energy"], ["datathroughput"]] if tier == "quick" else [[f] for f in ALL_FEATURES]
+    check_rows = [["speed"], ["energy"], ["datathroughput"], ["temperature"]] if tier == "quick" else [[f] for f in ALL_FEATURES]
     for col in cols:
         full, err = probe.corpus(list(ALL_FEATURES), col)
         corpus_runs += 1
@@ -307,9 +324,9 @@ def run(tier):
             if row[0] not in part:
                 violations.append(("configuration %s prints nothing for its own quantity" % feature_list(row, col), {}))
         # std / serde must not change results either (same back-end)
-    if tier != "quick":
+    if True:
         base = {}
-        for col in COLUMNS:
+        for col in (COLUMNS if tier != "quick" else [COLUMNS[0], (False, False, False), (True, False, True)]):
             out, err = probe.corpus(list(ALL_FEATURES), col)
             corpus_runs += 1
             if out is None:
